@@ -7,6 +7,7 @@ import Pcore.Generated.CacheFacts
 import Pcore.Proofs.ImmutResolve
 import Pcore.Proofs.ImmutWrites
 import Pcore.Generated.FieldWrites
+import Pcore.Proofs.ImmutMutable
 /-!
 # C08 — Values are immutable: no operation disturbs a value obtained earlier
 
@@ -92,6 +93,21 @@ Full statement / proved / missing
                       Deferred object held at two places of one value (the implementation-layer model is a tree: exact for
                       the code as it is — by the frame theorem nothing is written, so sharing cannot be observed — and
                       only an approximation of a memoising mutant), functions other than the harness's `verif_list`.
+* MUTABLEHASHVALUE AS AN OBJECT (`Model/ImmutMutable.lean`: one object whose storage `Put`/`PutAll` replace, plus the `Hash`
+                      methods it inherits by embedding; beyond the builder view of `Model/Coll.lean`):
+  `MutableResultsImmutable frozen` — FULL statement (a `def … : Prop`): whatever a history over a builder hands out that is
+                      not the builder itself — every entry typed as an immutable value — reads at every later time as
+                      it read when it was obtained.
+  `C08_mutable_results_partial` — proved for the code as it is (`frozen := false`): every answer with storage of its own
+                      (Keys, Values, Slice, Merge, Delete of a present key, DeleteAll with a match; literals) is never
+                      affected by later `Put`/`PutAll`.
+  `C08_mutable_alias_sites` — the ONLY answers that are not such values come from `Delete` / `DeleteAll` / `Unique` /
+                      `Entries` (the `return hv` sites) on a builder or on such an answer.
+  `C08_mutable_alias_refutes` — negation of the full statement for the code as it is: `m.Put(a, 1); u := m.Unique();
+                      m.Put(b, 2)` — `u`, typed `*Hash`, reads `{a => 1}` before and `{a => 1, b => 2}` after the
+                      second `Put` (known finding C08-mutable-hash-answers-itself; replayed on the implementation).
+  `C08_mutable_frozen_immutable` — the full statement holds when those four sites answer a copy (`frozen := true`): what a
+                      repair in the style of `freeze` achieves.
 * missing / trusted — (1) the extractor's classification of Go expressions into idioms (DESIGN §5.4) — cross-checked on
                       every run by the storage-shape correspondence (which values share a backing array, read off the
                       real slice headers, against the model's headers); (2) nested containers inside a cell are pure
@@ -525,3 +541,74 @@ example : ¬ FieldWritesSafe (⟨"Hash", "index", "Hash.Merge", .write⟩ :: fie
 example : ¬ FieldWritesSafe (⟨"Sensitive", "value", "Sensitive.Unwrap", .reset⟩ :: fieldWrites) := by decide
 
 end Pcore.Immut
+
+/-! ### a MutableHashValue as an object -/
+namespace Pcore.Mut
+open Pcore.Heap
+
+/-- FULL statement: everything a history over builders hands out — every pool entry other than a builder itself, i.e.
+    everything typed as an immutable value — reads at every later time as it read when it was obtained -/
+def MutableResultsImmutable (frozen : Bool) : Prop :=
+  ∀ (ops : List MOp) (i j j' : Nat), i < j → j ≤ j' → j' ≤ ops.length →
+    (mrun frozen (ops.take j)).isResult i = true →
+    (mrun frozen (ops.take j')).read i = (mrun frozen (ops.take j)).read i
+
+/-- proved part, for the code as it is: an answer with storage of its own is never affected by what happens later — in
+    particular not by `Put`/`PutAll` on the builder it was derived from -/
+theorem C08_mutable_results_partial (frozen : Bool) (ops : List MOp) (i j j' : Nat) (hij : i < j) (hjj : j ≤ j')
+    (hj : j' ≤ ops.length) (k : Kind) (xs : List Val)
+    (hv : (mrun frozen (ops.take j)).pool[i]? = some (.val k xs)) :
+    (mrun frozen (ops.take j')).read i = some xs ∧ (mrun frozen (ops.take j)).read i = some xs := by
+  have hp := mrun_prefix frozen ops i j j' hij hjj hj
+  unfold MState.read
+  rw [hp, hv]
+  exact ⟨rfl, rfl⟩
+
+/-- the only answers that are NOT values of their own are those of `Delete` / `DeleteAll` / `Unique` / `Entries` -/
+theorem C08_mutable_alias_sites (s : MState) (op : MOp) (o : Nat)
+    (h : (mstep false s op).pool = s.pool ++ [.alias o]) : op.sameSite = true :=
+  (mstep_alias false s op (.alias o) h rfl).1
+
+/-- `m := NewMutableHash(); m.Put('a', 1); u := m.Unique(); m.Put('b', 2)` -/
+def aliasHistory : List MOp := [.mnew, .put 0 (.str "a") (.int 1), .unique 0, .put 0 (.str "b") (.int 2)]
+
+/-- non-vacuity of `C08_mutable_results_partial` and of `C08_mutable_alias_sites`: in the history above with `Keys`
+    instead of `Unique` entry 2 is a value; with `Unique` it is an alias -/
+example : (mrun false ([.mnew, .put 0 (.str "a") (.int 1), .keys 0, .put 0 (.str "b") (.int 2)].take 3)).pool[2]? =
+    some (.val .arr [.str "a"]) := by rfl
+example : (mstep false (mrun false (aliasHistory.take 2)) (.unique 0)).pool =
+    (mrun false (aliasHistory.take 2)).pool ++ [.alias 0] := by rfl
+
+/-- the code as it is: `u` is a result (typed `*Hash`), holds one entry after step 2 and two after the second `Put` -/
+theorem C08_mutable_alias_changes :
+    (mrun false (aliasHistory.take 3)).isResult 2 = true ∧
+    (mrun false (aliasHistory.take 3)).read 2 = some [.ent (.str "a") (.int 1)] ∧
+    (mrun false (aliasHistory.take 4)).read 2 = some [.ent (.str "a") (.int 1), .ent (.str "b") (.int 2)] := by
+  refine ⟨by rfl, by rfl, by rfl⟩
+
+/-- … hence the full statement FAILS for the code as it is (known finding C08-mutable-hash-answers-itself) -/
+theorem C08_mutable_alias_refutes : ¬ MutableResultsImmutable false := by
+  intro h
+  have h1 := h aliasHistory 2 3 4 (by decide) (by decide) (by decide) C08_mutable_alias_changes.1
+  rw [C08_mutable_alias_changes.2.1, C08_mutable_alias_changes.2.2] at h1
+  have := congrArg (Option.map List.length) h1
+  simp at this
+
+/-- with the four `return hv` sites answering a copy (a repair in the style of `freeze`), the full statement holds -/
+theorem C08_mutable_frozen_immutable : MutableResultsImmutable true := by
+  intro ops i j j' hij hjj hj hres
+  unfold MState.isResult at hres
+  cases he : (mrun true (ops.take j)).pool[i]? with
+  | none => rw [he] at hres; cases hres
+  | some e =>
+    cases e with
+    | val k xs =>
+      obtain ⟨h1, h2⟩ := C08_mutable_results_partial true ops i j j' hij hjj hj k xs he
+      rw [h1, h2]
+    | alias o =>
+      have := frozen_no_alias (ops.take j) (.alias o) (List.mem_of_getElem? he)
+      cases this
+    | obj o => rw [he] at hres; cases hres
+    | mark m => rw [he] at hres; cases hres
+
+end Pcore.Mut
